@@ -149,6 +149,7 @@ class C17(Prop):
                     c["sent_at"] = pat
                 elif arr["vkind"] == "f":
                     arr["nan_at"] = pat
+                add_inf(rng, arr, shape, c.get("sent_at") or [])
                 slice_size = int(np.prod(shape)) // max(len(L), 1)
                 c["minvalid"] = None if (rank == 1 or rng.random() < 0.35) else rng.randint(0, slice_size)
                 if rng.random() < 0.15:
@@ -165,6 +166,7 @@ class C17(Prop):
                         arr["nan_at"] = [i for i in nan_pattern(rng, shape, "some") if i not in pat]   # NaN is not the sentinel: stays
                 elif arr["vkind"] == "f":
                     arr["nan_at"] = pat
+                add_inf(rng, arr, shape, c.get("sent_at") or [])
                 yield c
             else:
                 arr["vkind"] = rng.choice(["f", "i", "i"])
@@ -460,6 +462,16 @@ def sentinel(rng, vkind):
 def na_py(c):
     fr = Fraction(c["na"][1], c["na"][2])
     return int(fr) if (fr.denominator == 1 and c["array"].get("vkind") == "i") else float(fr)
+
+
+def add_inf(rng, arr, shape, taken):
+    """infinite cells (values, not missing values) in some float arrays"""
+    if arr.get("vkind") != "f" or rng.random() > 0.25:
+        return
+    size = int(np.prod(shape)) if len(shape) else 1
+    free = [i for i in range(size) if i not in (arr.get("nan_at") or []) and i not in taken]
+    if free:
+        arr["inf_at"] = [[i, rng.choice([1, -1])] for i in rng.sample(free, min(len(free), rng.randint(1, 2)))]
 
 
 def build(c):
